@@ -7,6 +7,22 @@ VERIF = Path(__file__).resolve().parent.parent
 
 # id -> (implemented, category, technique, level text, level note, design ref)
 P = {
+    'C02': (True, 'exploration',
+            'metamorphic monitor: locations of corresponding tasks in a configuration and in a computation-preserving rewriting of it (validated on the reference model), across interpreters',
+            'Pairs (S, S\') where S\' is S after 1-4 composed rewritings (rename/move/format of config files, mounting under namespace paths by root namespace or wrapper, '
+            'permutation of tasks/uses/keys/mapping keys at every depth, module variants with permuted/ignored/default-valued parameters and absent optional inputs, moving '
+            'values into the context, other global_vars values), half of the pairs built in freshly spawned interpreters with different PYTHONHASHSEED; data_path / '
+            'name_for_persistence of corresponding tasks must be equal and descriptor -> location must be a function. Two open known findings are matched by a strict '
+            'mechanism classifier (implementation must follow the frozen 1.4.0 scheme exactly and differ only by set order / in-object mapping order).',
+            'Parameter mode; equality is Python == on JSON-like values.',
+            'DESIGN.md §3 C02'),
+    'C03': (True, 'exploration',
+            'adversarial value-pair monitor on real one-task chains + graph-level mutation monitor (moved set == {U} U descendants) + location->descriptor injectivity',
+            'About 20 000 pairs of unequal JSON-like values / parameter objects (structural neighbours, separator and quote strings, long values differing late) per quick run, '
+            'each given to a real task: keys must differ; generated pipelines where one parameter (any depth, object arguments) is changed or inputs are rewired: exactly the '
+            'task and its descendants must move. One open known finding (unescaped quotes) matched by mechanism: frozen texts identical and a quote inside a string.',
+            'Pairs Python considers equal (1/1.0/True) and NaN are excluded as in the statement.',
+            'DESIGN.md §3 C03'),
     'C13': (True, 'exploration',
             'member chains vs reference evaluation of each config, object-identity monitor (shared iff same computation descriptor), run log + audit-hook reads across members',
             'MultiChains over 2-5 configs of one generated pipeline (values changed at any depth, other contexts/parts/root namespaces, swapped twin mounts) are built in a real '
